@@ -100,7 +100,7 @@ func handlePUSH(params x86genParams, ctx *CodeGenContext) ([]byte, error) {
 		}
 		code = append(code, 0xFF) // Append opcode after prefixes
 		code = append(code, modrmByte)
-		if sibByte != 0 {
+		if hasSIBByte(modrmByte, memInfo) {
 			code = append(code, sibByte)
 		}
 		code = append(code, dispBytes...)
@@ -228,7 +228,7 @@ func handlePOP(params x86genParams, ctx *CodeGenContext) ([]byte, error) {
 		}
 		code = append(code, 0x8F) // Append opcode after prefixes
 		code = append(code, modrmByte)
-		if sibByte != 0 {
+		if hasSIBByte(modrmByte, memInfo) {
 			code = append(code, sibByte)
 		}
 		code = append(code, dispBytes...)
